@@ -185,6 +185,14 @@ def build_traces(path, tier, seed):
         trap = (i % 3) != 2
         if i % 4 == 1:               # integer dtype record (counts): the integrals are fractional
             a = np.round(a / (np.max(np.abs(a)) + 1e-300) * 50).astype(np.int64)
+        elif i % 4 == 3 and rng.integers(2):
+            # counts in a narrow integer dtype (int8 / int16 / int32 / uint8), also with a whole-number time step
+            dt_, top = [(np.int8, 100), (np.int16, 30000), (np.int32, 2.0e9), (np.uint8, 250)][int(rng.integers(4))]
+            a = np.abs(a) if dt_ is np.uint8 else np.asarray(a, dtype=float)
+            a = np.round(a / (np.max(np.abs(a)) + 1e-300) * top).astype(dt_)
+            shape += " (%s counts)" % np.dtype(dt_).name
+            if rng.integers(2):
+                dt = int(rng.integers(1, 4))
         elif rng.integers(8) == 0:   # magnitudes whose squares leave the double range (2^-560 .. 2^520): |x| itself is ordinary
             a = a / (np.max(np.abs(a)) + 1e-300) * float(2.0 ** rng.choice([-560, -400, 380, 520]))
             shape += " (extreme magnitude)"
